@@ -61,7 +61,7 @@ def run_one(m, repo=None):
                 if status != 'killed':
                     status = 'killed-other-rule'
                 res.append('%s: %s' % (prop, (lines or [''])[0].strip()[:200]))
-            elif r.returncode == 2:
+            elif r.returncode == 2 or 'INCONCLUSIVE property=' in out:
                 if status == 'missed':
                     status = 'inconclusive'
                 res.append('%s: %s' % (prop, (lines or [''])[0].strip()[:200]))
@@ -75,7 +75,8 @@ def run_one(m, repo=None):
 def run_for(prop, repo, jobs=8):
     """All mutants and seeds of one property against scratch copies of `repo`; list of (id, status, detail)."""
     ms = load(props=[prop])
-    ms = [dict(m, props=[prop]) for m in ms]
+    # a mutant listed under several properties belongs to the one whose rule is expected to report it
+    ms = [dict(m, props=[prop]) for m in ms if m['expect'].startswith(prop)]
     with cf.ThreadPoolExecutor(max_workers=jobs) as ex:
         return list(ex.map(lambda m: run_one(m, repo), ms))
 
